@@ -157,6 +157,20 @@ Definition gk_get (t : tower) (u : N) : option uinfo := aget (gk_users t) u.
 Definition gk_put (t : tower) (u : N) (ui : uinfo) : tower :=
   set_gk_users t ((u, ui) :: aremove (gk_users t) u).
 
+(* ---- the primitive table updates every procedure below is composed of ---- *)
+(* a user appears: row stored, then memory *)
+Definition p_new_user (t : tower) (u : N) (ui : uinfo) : tower :=
+  gk_put (set_db_users t (db_users t ++ [(u, ui)])) u ui.
+(* an existing user's info changes: memory, then UPDATE users *)
+Definition p_set_user (t : tower) (u : N) (ui : uinfo) : tower := db_update_user (gk_put t u ui) u ui.
+(* outdated users: removed from memory, then batch_remove_users (cascade) *)
+Definition p_purge (t : tower) (outdated : list N) : tower :=
+  db_delete_users (set_gk_users t (aretain (fun u => negb (memN u outdated)) (gk_users t))) outdated.
+Definition p_insert_app (t : tower) (a : app) : tower := set_db_apps t (db_apps t ++ [a]).
+Definition p_update_app (t : tower) (a : app) : tower :=
+  set_db_apps t (map (fun x => if uuid_eqb (app_uuid x) (app_uuid a) then a else x) (db_apps t)).
+Definition p_insert_trk (t : tower) (k : trk) : tower := set_db_trks t (db_trks t ++ [k]).
+
 (* ------------------------------------------------------------------------------------------ *)
 (* Carrier *)
 
@@ -206,8 +220,7 @@ Definition gk_add_update_user (t : tower) (u : N) : res reg_result :=
       | Some s =>
           let e := match u32_add (u_expiry ui) (c_duration (cfg t)) with Some e => e | None => U32MAX end in
           let ui' := mk_uinfo s (u_start ui) e in
-          let t1 := gk_put t u ui' in
-          Ok (RegOk s (u_start ui) e) (db_update_user t1 u ui')
+          Ok (RegOk s (u_start ui) e) (p_set_user t u ui')
       end
   | None =>
       match u32_add block_count (c_duration (cfg t)) with
@@ -216,8 +229,7 @@ Definition gk_add_update_user (t : tower) (u : N) : res reg_result :=
           let ui := mk_uinfo (c_slots (cfg t)) block_count e in
           if amem (db_users t) u then Abort S_gk_store_user_unwrap t
           else
-            let t1 := set_db_users t (db_users t ++ [(u, ui)]) in
-            Ok (RegOk (u_slots ui) block_count e) (gk_put t1 u ui)
+            Ok (RegOk (u_slots ui) block_count e) (p_new_user t u ui)
       end
   end.
 
@@ -232,7 +244,7 @@ Definition gk_add_update_appointment (t : tower) (u : N) (uuid : N * N) (blen : 
       if N.leb required (u_slots ui + used) then
         let s := ((u_slots ui + used - required) mod U32MOD) in   (* `as u32` *)
         let ui' := mk_uinfo s (u_start ui) (u_expiry ui) in
-        Ok (Some s) (db_update_user (gk_put t u ui') u ui')
+        Ok (Some s) (p_set_user t u ui')
       else Ok None t
   end.
 
@@ -247,10 +259,17 @@ Fixpoint outdated_users (delta h : N) (us : list (N * uinfo)) : option (list N) 
       end
   end.
 
-(* delete_appointments(uuids, refund) *)
-Fixpoint refund_loop (t : tower) (us : list (N * N)) (updated : list N) : res (list N) :=
+(* delete_appointments(uuids, refund).  The code gives the slots back in memory while walking the
+   list and writes the users' new balances inside the transaction that deletes the rows; here the
+   balance is written to memory and to the row together, user by user, which yields the same
+   state whenever the call returns (what the correspondence check compares); the actual write
+   order matters only for crashes and is modelled in Crash.v. *)
+Definition p_refund_user (t : tower) (u : N) (ui : uinfo) (s : N) : tower :=
+  db_update_user_slots (gk_put t u (mk_uinfo s (u_start ui) (u_expiry ui))) u s.
+
+Fixpoint refund_loop (t : tower) (us : list (N * N)) : res unit :=
   match us with
-  | [] => Ok updated t
+  | [] => Ok tt t
   | uuid :: r =>
       match find_app (db_apps t) uuid with
       | None => Abort S_gk_refund_row_unwrap t
@@ -260,9 +279,7 @@ Fixpoint refund_loop (t : tower) (us : list (N * N)) (updated : list N) : res (l
           | Some ui =>
               match u32_add (u_slots ui) (slots_of (b_len (a_blob a))) with
               | None => Abort S_gk_refund_overflow t
-              | Some s =>
-                  refund_loop (gk_put t (a_user a) (mk_uinfo s (u_start ui) (u_expiry ui))) r
-                              (a_user a :: updated)
+              | Some s => refund_loop (p_refund_user t (a_user a) ui s) r
               end
           end
       end
@@ -270,12 +287,8 @@ Fixpoint refund_loop (t : tower) (us : list (N * N)) (updated : list N) : res (l
 
 Definition gk_delete_appointments (t : tower) (us : list (N * N)) (refund : bool) : res unit :=
   if refund then
-    do updated, t1 <- refund_loop t us [];
-    (* batch_remove_appointments: delete rows, then UPDATE users SET available_slots for the updated users *)
-    let t2 := db_delete_apps t1 us in
-    Ok tt (fold_left (fun t' u => match gk_get t' u with
-                                   | Some ui => db_update_user_slots t' u (u_slots ui)
-                                   | None => t' end) updated t2)
+    do _, t1 <- refund_loop t us;
+    Ok tt (db_delete_apps t1 us)
   else Ok tt (db_delete_apps t us).
 
 (* Gatekeeper::filtered_block_connected *)
@@ -283,8 +296,7 @@ Definition gk_block_connected (t : tower) (h : N) : res unit :=
   match outdated_users (c_delta (cfg t)) h (gk_users t) with
   | None => Abort S_gk_outdated_overflow t
   | Some outdated =>
-      let t1 := if match outdated with [] => true | _ => false end then t
-                else db_delete_users (set_gk_users t (aretain (fun u => negb (memN u outdated)) (gk_users t))) outdated in
+      let t1 := if match outdated with [] => true | _ => false end then t else p_purge t outdated in
       Ok tt (set_gk_height t1 h)
   end.
 
@@ -303,8 +315,8 @@ Definition r_add_tracker (t : tower) (uuid : N * N) (dispute penalty : N) (s : c
   | ConfirmedIn h | InMempoolSince h =>
       match find_trk (db_trks t) uuid, find_app (db_apps t) uuid with
       | None, Some _ =>
-          set_db_trks t (db_trks t ++ [mk_trk (fst uuid) (snd uuid) dispute penalty h
-                                               (match s with ConfirmedIn _ => true | _ => false end)])
+          p_insert_trk t (mk_trk (fst uuid) (snd uuid) dispute penalty h
+                                 (match s with ConfirmedIn _ => true | _ => false end))
       | _, _ => t
       end
   | _ => t
@@ -463,9 +475,9 @@ Definition w_store_appointment (t : tower) (a : app) : res unit :=
   match find_app (db_apps t) (app_uuid a) with
   | Some _ =>
       (* UPDATE appointments SET encrypted_blob, to_self_delay, user_signature, start_block *)
-      Ok tt (set_db_apps t (map (fun x => if uuid_eqb (app_uuid x) (app_uuid a) then a else x) (db_apps t)))
+      Ok tt (p_update_app t a)
   | None =>
-      if amem (db_users t) (a_user a) then Ok tt (set_db_apps t (db_apps t ++ [a]))
+      if amem (db_users t) (a_user a) then Ok tt (p_insert_app t a)
       else Abort S_w_store_insert_unwrap t
   end.
 
